@@ -361,6 +361,40 @@ def whole_chain_part(c, pid, selftest=True):
             raise vf.MachineryError("whole-chain binding self-test: nothing to corrupt for " + pid)
 
 
+def replay(c, path):
+    """Re-execute a whole-chain TRACE replay file (written by the whole-chain stage of any application-level
+    property) against the current tree: record the same chains again and validate them with the property's cfg."""
+    r = json.load(open(path))
+    cmd = r.get("harness_cmd") or []
+    if isinstance(cmd, str):
+        import ast
+        cmd = ast.literal_eval(cmd)
+    if r.get("kind") != "trace" or not cmd or cmd[0] != BIN:
+        raise vf.MachineryError("not a whole-chain trace replay file")
+    pid = c.pid
+    vf.build_harness([BIN])
+    args = [str(a) for a in cmd[1:]]
+    tr = os.path.join(c.scratch, "trace-all.ndjson")
+    split = 1
+    for i, a in enumerate(args):
+        if a == "-out":
+            args[i + 1] = tr
+        if a == "-split":
+            split = int(args[i + 1])
+    vf.run_harness(BIN, args, env={"VERIF_SEED": int(r.get("seed", c.seed))}, timeout=3000)
+    files = ["%s.%d" % (tr, i) for i in range(split)] if split > 1 else [tr]
+    kf, _ = _known_file(c)
+    results, _ = _validate_files(c, pid, files, kf, "whole-chain traces (replay)", [BIN] + args)
+    if c.violations:
+        print("VIOLATION property=%s replay=%s" % (pid, path))
+        print("  reproduced: " + c.violations[0][0][:500])
+        c.cleanup()
+        return 1
+    print("NOT-REPRODUCED property=%s replay=%s" % (pid, path))
+    c.cleanup()
+    return 0
+
+
 def main(argv):
     import argparse
     ap = argparse.ArgumentParser(description="run the whole-chain stage stand-alone for one property id")
